@@ -1,0 +1,31 @@
+//go:build verif
+
+package tredactemail
+
+// Exports of the unexported redaction functions for the verification harness.
+// Thin wrappers only: no logic of their own.
+
+// VerifRedactEmail calls redactEmail
+func VerifRedactEmail(src string) string {
+	return redactEmail(src)
+}
+
+// VerifRedactEmailFindFirst calls redactEmailFindFirst
+func VerifRedactEmailFindFirst(src string) int {
+	return redactEmailFindFirst(src)
+}
+
+// VerifRedactEmail1 calls redactEmail1
+func VerifRedactEmail1(src string, start int) (string, int) {
+	return redactEmail1(src, start)
+}
+
+// VerifRedactFindEmailBoundary calls redactFindEmailBoundary
+func VerifRedactFindEmailBoundary(src string, atIndex int, limitStart int) (int, int) {
+	return redactFindEmailBoundary(src, atIndex, limitStart)
+}
+
+// VerifRedactEmailCheckNumber calls redactEmailCheckNumber
+func VerifRedactEmailCheckNumber(s string) bool {
+	return redactEmailCheckNumber(s)
+}
